@@ -285,6 +285,21 @@ class _RetryState:
         if callable(record_failure):
             record_failure(klass)
 
+        if attempt >= self.policy.max_attempts:
+            # Last permitted attempt: stop before computing a backoff, spending a
+            # budget token, emitting "retry" or sleeping for a retry that cannot happen.
+            self.last_stop_reason = StopReason.MAX_ATTEMPTS_GLOBAL
+            self.emit(
+                EventName.MAX_ATTEMPTS_EXCEEDED.value,
+                attempt,
+                0.0,
+                klass,
+                exc,
+                stop_reason=StopReason.MAX_ATTEMPTS_GLOBAL,
+                cause=cause,
+            )
+            return _RetryDecision("raise")
+
         remaining = self.policy.deadline - self.elapsed()
         remaining_s = remaining.total_seconds()
         if remaining_s <= 0:
